@@ -27,6 +27,7 @@ func init() {
 	chk.RegisterWorker("c10abs", workC10Abs)
 	chk.RegisterWorker("c10graphs", workC10Graphs)
 	chk.RegisterWorker("c10models", workC10Models)
+	chk.RegisterWorker("c10shared", workC10Shared)
 }
 
 // workC10Models: generated models — the in-place rendering against every MACRO+PASTE abstraction of every sibling run
@@ -94,6 +95,7 @@ func workC10Models(w *run.W) {
 
 type c10Params struct {
 	AllRuns  bool `json:"all_runs"`
+	MaxRun   int  `json:"max_run_len"` // with AllRuns: runs of at most this many siblings (plus the whole sibling list)
 	MaxBytes int  `json:"max_bytes"`
 	Macros   int  `json:"macros"`
 }
@@ -222,6 +224,9 @@ func workC10Abs(w *run.W) {
 					if !p.AllRuns && b-a > 1 && !(a <= 1 && b == len(kids)-1) {
 						continue
 					}
+					if p.AllRuns && p.MaxRun > 0 && b-a >= p.MaxRun && !(a <= 1 && b == len(kids)-1) {
+						continue
+					}
 					sibs := kids[a : b+1]
 					if !ds.contiguous(sibs) || (hoist && b != len(kids)-1) {
 						continue
@@ -303,6 +308,84 @@ func workC10Abs(w *run.W) {
 		if fi%113 == 0 && len(runs) > 0 && w.Shard == 0 {
 			w.Sample(map[string]any{"file": f, "macro_form": trunc(macroForm(text, []cut{runs[0].c}, false, jsightEnd), 600)})
 		}
+	}
+}
+
+// workC10Shared: one MACRO pasted from two or three places against the document with the body written out at each place.
+func workC10Shared(w *run.W) {
+	runs := []string{
+		"  GET\n    Path\n    {\"id\": 1}\n    200 any\n",
+		"  GET\n    200 any\n  POST\n    Request any\n    201 any\n",
+		"  DELETE\n    Description\n      some text\n    204 empty\n",
+		"  GET\n    Query\n    {\"q\": 1}\n    200\n      Headers\n      {\"h\": \"1\"}\n      Body @T\n",
+		"  PUT\n    200 @T\n  PATCH\n    Request @T\n    200 [@T]\n",
+	}
+	parents := [][]string{
+		{"URL /cats/{id}\n", "URL /dogs/{id}\n"},
+		{"URL /cats/{id}\n", "URL /dogs/{id}\n", "URL /pigs/{id}\n"},
+		{"URL /a/{id}\n(\n", "URL /b/{id}\n(\n"},
+	}
+	head := "JSIGHT 0.3\nTAG @t\nTYPE @T\n  {\"x\": 1}\n"
+	respRuns := []string{"  404 any\n  500 @T\n", "  Description\n    shared text\n  200 any\n", "  Query\n  {\"q\": 2}\n  200 any\n"}
+	methods := []string{"GET /m1\n", "POST /m2\n", "DELETE /m3/{id}\n"}
+	type cs struct{ name, inplace, macro string }
+	var cases []cs
+	mk := func(name string, places []string, run string, closers bool) {
+		for _, before := range []bool{true, false} {
+			var u, m strings.Builder
+			u.WriteString(head)
+			m.WriteString(head)
+			def := "MACRO @shared\n(\n" + run + ")\n"
+			if before {
+				m.WriteString(def)
+			}
+			for _, p := range places {
+				u.WriteString(p + run)
+				m.WriteString(p + "  PASTE @shared\n")
+				if strings.HasSuffix(p, "(\n") {
+					u.WriteString(")\n")
+					m.WriteString(")\n")
+				}
+			}
+			if !before {
+				m.WriteString(def)
+			}
+			cases = append(cases, cs{fmt.Sprintf("%s/def-before=%v", name, before), u.String(), m.String()})
+		}
+	}
+	for ri, r := range runs {
+		for pi, ps := range parents {
+			mk(fmt.Sprintf("shared-macro/run%d/parents%d", ri, pi), ps, r, true)
+		}
+	}
+	for ri, r := range respRuns {
+		mk(fmt.Sprintf("shared-macro/resp%d", ri), methods, r, false)
+	}
+	// a macro pasted twice inside another macro, which is pasted twice
+	cases = append(cases, cs{"shared-macro/nested-twice",
+		head + "GET /n1\n  404 any\n  500 @T\n  200 any\nPOST /n2\n  404 any\n  500 @T\n  200 any\n",
+		head + "MACRO @errs\n(\n  404 any\n  500 @T\n)\nMACRO @all\n(\n  PASTE @errs\n  200 any\n)\nGET /n1\n  PASTE @all\nPOST /n2\n  PASTE @all\n"})
+	for i, c := range cases {
+		if !w.Mine(int64(i)) || !w.Begin(c.name) {
+			continue
+		}
+		w.Count("abstractions", 1)
+		w.Count("shared_macro_cases", 1)
+		w.Nontrivial(c.macro)
+		a, b := impl.BuildMem("root.jst", c.inplace), impl.BuildMem("root.jst", c.macro)
+		oa, ob := "ERR "+a.Err.Tuple(), "ERR "+b.Err.Tuple()
+		if a.Err == nil && a.Panic == nil {
+			oa = impl.ToJson(&a.J).String()
+		}
+		if b.Err == nil && b.Panic == nil {
+			ob = impl.ToJson(&b.J).String()
+		}
+		if a.Err != nil {
+			w.Violation("C10", "harness:shared-macro-document-invalid", c.name+": the in-place document is rejected: "+a.Err.Msg+"\n"+c.inplace, nil)
+		} else if oa != ob {
+			w.Violation("C10", "shared-macro", fmt.Sprintf("%s: a macro pasted from several places does not give the catalog of the body written out: %s\n%s", c.name, firstDiff(ob, oa), c.macro), map[string]any{"macro_form": c.macro, "in_place": c.inplace})
+		}
+		w.End()
 	}
 }
 
@@ -491,13 +574,15 @@ func uniq(a []int) []int {
 }
 
 func runC10(c *chk.Ctx) {
-	p := c10Params{AllRuns: !c.Quick(), MaxBytes: chk.Pick(c, 20000, 200000), Macros: 3}
+	p := c10Params{AllRuns: !c.Quick(), MaxRun: 4, MaxBytes: chk.Pick(c, 20000, 60000), Macros: 3}
 	r := c.Pool.Run("c10abs", p)
 	c.Merge(r, "abstractions")
 	r2 := c.Pool.Run("c10graphs", p)
 	c.Merge(r2, "graphs")
 	r3 := c.Pool.Run("c10models", map[string]any{"budget": chk.Pick(c, 3, 3)})
 	c.Merge(r3, "abstractions")
+	r4 := c.Pool.Run("c10shared", map[string]any{})
+	c.Merge(r4, "abstractions")
 	c.Cov["params"] = p
-	c.Cov["rule"] = "(a) every accepted INCLUDE-free LF corpus document x every eligible contiguous run of sibling directives (PASTE admitted at the site, MACRO admits the kinds, the reference automaton keeps the run inside the MACRO subtree) moved into MACRO+PASTE: one macro defined after / before use, a macro nested in a macro, two macros; oracle: identical ToJson bytes and identical expanded directive tree. (b) every PASTE graph over 3 macros + an undefined name (65,536 graphs): reachable cycle => recursion error, reachable undefined => macro-not-found, acyclic and defined => accepted with exactly the expanded macros' declarations in expansion order. (c) every generated model within the budget: the in-place rendering against every one- and two-macro abstraction of its sibling runs (identical ToJson bytes); C02 additionally compares them with the model."
+	c.Cov["rule"] = "(a) every accepted INCLUDE-free LF corpus document x every eligible contiguous run of sibling directives (PASTE admitted at the site, MACRO admits the kinds, the reference automaton keeps the run inside the MACRO subtree) moved into MACRO+PASTE: one macro defined after / before use, a macro nested in a macro, two macros; oracle: identical ToJson bytes and identical expanded directive tree. (b) every PASTE graph over 3 macros + an undefined name (65,536 graphs): reachable cycle => recursion error, reachable undefined => macro-not-found, acyclic and defined => accepted with exactly the expanded macros' declarations in expansion order. (d) hand-written documents in which one macro is pasted from two or three places (also a macro pasted twice inside a macro that is pasted twice) against the body written out at each place. (c) every generated model within the budget: the in-place rendering against every one- and two-macro abstraction of its sibling runs (identical ToJson bytes); C02 additionally compares them with the model."
 }
